@@ -7,7 +7,7 @@ ID = "C13"
 THM_MODULES = ["Minicbor.Thm.C13"]
 P = "Minicbor.C13."
 REQUIRED = [P + n for n in """sink_iff_fits sink_prefix vec_collects sink_independent specSeq_atomic cursor_position
-position_after_encoding failure_is_write_error exact_buffer encoder_puts_sound""".split()]
+position_after_encoding failure_is_write_error exact_buffer encoder_puts_sound call_script call_leaves_prefix call_script_all_fit""".split()]
 PACKAGES = ["hcore"]
 KINDS = ["slice", "cslice", "carray", "cbox", "io:1", "io:3", "io:64"]
 RULE = ("sinkenc <kind> <cap> <calls>: Encoder call chains (every integer method at its width edges, floats, simple/bool/null, tag/array/map heads at every "
@@ -152,6 +152,52 @@ def judge_raw(op, impl, model, spec):
 
 
 # ----------------------------------------------------------------------------- generators
+
+def judge_script(op, impl, model, spec):
+    """`encseq <kind> <cap> <call>…`: calls on ONE encoder, carrying on after a call that did not fit.  The oracle does not
+    know how a method splits its encoding into writes: a call is Ok iff its whole encoding fits into the room left at that
+    time and then adds exactly it; a failed call adds a strict prefix of its encoding (any length); nothing else changes."""
+    w = [x for x in op.split(" ") if not x.startswith("#")]
+    cap, calls = int(w[2]), w[3:]
+    iw = impl.split(" ")
+    if len(iw) != 3 or not iw[1].startswith("pos=") or not iw[2].startswith("buf="):
+        return "violation"
+    rs = iw[0].split(",") if iw[0] != "-" else []
+    pos = int(iw[1][4:])
+    buf = b"" if iw[2][4:] == "-" else bytes.fromhex(iw[2][4:])
+    if len(rs) != len(calls) or len(buf) != cap or pos > cap or any(b != 0xEE for b in buf[pos:]):
+        return "violation"
+    encs = [enc_call(c) for c in calls]
+
+    def match(i, p):
+        if i == len(calls):
+            return p == pos
+        e, room = encs[i], cap - p
+        if rs[i] == "ok":
+            return len(e) <= room and buf[p:p + len(e)] == e and match(i + 1, p + len(e))
+        if rs[i] != "write" or len(e) <= room:
+            return False
+        return any(buf[p:p + k] == e[:k] and match(i + 1, p + k) for k in range(0, min(room, len(e) - 1) + 1))
+    if not match(0, 0):
+        return "violation"
+    return "ok" if impl == model else "corr"
+
+
+def script_ops(rng, tier):
+    ops = ["encseq slice 6 u8:1 bytes:1111111111111111 u16:1000", "encseq cbox 0 u8:1 null", "encseq cslice 1 u16:1000 u8:3 u8:4"]
+    pool = value_chains(rng, "quick")
+    for _ in range(4000 if tier == "quick" else 60000):
+        calls = []
+        for _ in range(rng.randint(1, 7)):
+            calls.append(rng.choice(rng.choice(pool)))
+        total = sum(len(enc_call(c)) for c in calls)
+        kind = rng.choice(["slice", "cslice", "cbox", "carr"])
+        cap = 12 if kind == "carr" else rng.choice([0, 1, 2, 3, 5, 8, 12, 16, 24, max(total - 1, 0), total, max(total // 2, 0)])
+        if cap > 4096:
+            continue
+        ops.append(f"encseq {kind} {cap} " + " ".join(calls))
+    return ops
+
 
 def value_chains(rng, tier):
     """lists of Encoder calls."""
@@ -310,12 +356,18 @@ def streams(rng, tier):
                 rule="sink: raw write_all sequences (carrying on after failures), lengths 0..=cap+1; own replay oracle + model")
     s3.shrinkable = False
     out.append(s3)
+    # ---- scripts of Encoder calls on one sink, carrying on after failures
+    s4 = Stream("call-scripts", "hcore", script_ops(rng, tier), judge=judge_script, nontrivial=lambda op, impl: "pos=" in impl,
+                rule="encseq: Encoder calls on ONE bounded sink carrying on after a call that did not fit (C13.call_script): a call is Ok iff its "
+                     "encoding fits into the room left then; a failed one leaves a strict prefix of its encoding; nothing beyond is touched; + model")
+    s4.shrinkable = False
+    out.append(s4)
     return out
 
 
 def replay_streams(rp):
     op = rp.get("original_op") or rp["op"]
-    j = judge_raw if op.startswith("sink ") else judge_enc
+    j = judge_raw if op.startswith("sink ") else judge_script if op.startswith("encseq") else judge_enc
     s = Stream("replay", "hcore", [op], model_ops=[rp.get("model_op") or op], judge=j)
     s.shrinkable = False
     return [s]
